@@ -55,10 +55,11 @@ def wm_search(rep, wt, rt, tier, report_found):
     """bounded exploration of the weak-memory machine on the GENERATED programs, looking for a torn
     or backward read"""
     q = tier == "quick"
-    cfgs = [("I 1 10 V 2 20 N 1", 14, 2), ("I 1 10 V 2 20 3 30 N 1", 22 if q else 30, 3), ("I 1 10 V 2 20 N 2", 16 if q else 22, 2)]
+    cfgs = [("I 1 10 V 2 20 N 1", 14, 2), ("I 1 10 V 2 20 3 30 N 1", 22 if q else 28, 3), ("I 1 10 V 2 20 N 2", 16 if q else 21, 2)]
     if not q:
-        cfgs.append(("I 1 10 V 2 20 3 30 4 40 N 2", 30, 4))
-    lines = ["wmsearch W %s R %s %s D %d C %d" % (" ".join(wt), " ".join(rt), c, d, mc) for c, d, mc in cfgs]
+        cfgs.append(("I 1 10 V 2 20 3 30 N 2", 24, 3))
+    # the exploration is cut at a fixed number of states (it is a search for a replay, not evidence)
+    lines = ["wmsearch W %s R %s %s D %d C %d L %d" % (" ".join(wt), " ".join(rt), c, d, mc, 300000 if q else 1500000) for c, d, mc in cfgs]
     outs = vlib.run_model(lines, shards=min(len(lines), 4))
     res = []
     for l, o in zip(lines, outs):
